@@ -94,7 +94,7 @@ class Monitor:
 
 # ------------------------------------------------------------------ edits
 
-EDIT_KINDS = ['subst_in', 'delete', 'duplicate', 'replace_rhs', 'rename_local', 'append', 'prepend_comment']
+EDIT_KINDS = ['subst_in', 'delete', 'duplicate', 'replace_rhs', 'rename_local', 'prepend_comment']
 
 
 def make_plan(rng, nedits, idx):
@@ -102,6 +102,9 @@ def make_plan(rng, nedits, idx):
     kinds = list(EDIT_KINDS)
     if idx % 10 == 4:
         kinds += ['replace_rhs_clone'] * 3
+    if idx % 10 == 2:
+        # Section.append is a known mechanism (appended statement lost): exactly this one edit in this slice
+        return [('append', rng.random(), False)]
     return [(rng.choice(kinds), rng.random(), rng.random() < 0.4) for _ in range(nedits)]
 
 
